@@ -365,6 +365,10 @@ func (vc *FuncVC) execUnOp(st *State, reach Term, ins *ssa.UnOp) {
 	case token.MUL: // load
 		vc.nilCheck(reach, ins.X, "load", ins.Pos())
 		x := vc.val(ins.X)
+		if vc.dirtyKeys != nil {
+			vc.readRoots = vc.roots(ins.X)
+			defer func() { vc.readRoots = nil }()
+		}
 		if x.Kind == vLoc {
 			vc.vals[ins] = vc.loadLoc(st, x.Loc)
 			return
